@@ -135,6 +135,26 @@ def w_geometry(item, seed=0):
             if e > TOL_GEOM:
                 t.fail({"relation": "coordinates_equal_closed_form", "knots": knots, "square": shape[0] == shape[1], "angle_zero": angles[i] % 180 == 0}, dict(case, image=i), f"shape={shape} angle={angles[i]} pad={pad} knots={knots}: coordinates differ from centre + R(theta)(offset) by {e:.3g} px")
             coords[(knots, i)] = (np.asarray(xa), np.asarray(ya))
+            # weight map CONTENT: an independent bilinear splat of unit weights at the closed-form coordinates (floor, the
+            # four neighbours wrapped periodically, np.add.at) smoothed with the same Gaussian width. Sums and knots cannot
+            # see a pixel splatted into the wrong cell (truncation instead of floor for negative coordinates keeps the
+            # four weights summing to one). Observed worst deviation 2e-7 of the map's maximum (float32); a misplaced
+            # pixel changes the map by ~0.5.
+            if knots == 1:
+                from scipy.ndimage import gaussian_filter
+
+                xF, yF = np.floor(ox).astype(int), np.floor(oy).astype(int)
+                fx, fy = ox - xF, oy - yF
+                cnt = np.zeros(canvas)
+                for a_, b_, w_ in ((0, 0, (1 - fx) * (1 - fy)), (1, 0, fx * (1 - fy)), (0, 1, (1 - fx) * fy), (1, 1, fx * fy)):
+                    np.add.at(cnt, ((xF + a_) % canvas[0], (yF + b_) % canvas[1]), w_)
+                refw = gaussian_filter(cnt, sigma)
+                gotw = np.asarray(dc.weights_warped.array[i], dtype=np.float64)
+                ew = float(np.abs(gotw - refw).max()) / max(float(refw.max()), 1e-30) if gotw.shape == refw.shape else np.inf
+                t.stat("weight_map_vs_independent_splat", ew if np.isfinite(ew) else 1e9)
+                t.extra["negative_coordinates_in_splat_oracle"] += int((ox < 0).sum() + (oy < 0).sum() > 0)
+                if ew > 2e-5:
+                    t.fail({"relation": "weight_map_equals_independent_splat", "negative_coordinates": bool((ox < 0).any() or (oy < 0).any())}, dict(case, image=i), f"weight map differs from an independent bilinear splat + Gaussian({sigma}) by {ew:.3g} of its maximum (shape={shape} angle={angles[i]} pad={pad}; {int((ox < 0).sum() + (oy < 0).sum())} negative coordinates)")
             # weight map: every pixel contributes unit total weight
             wsum = float(np.asarray(dc.weights_warped.array[i], dtype=np.float64).sum())
             rel = abs(wsum - shape[0] * shape[1]) / (shape[0] * shape[1])
